@@ -160,7 +160,10 @@ ITER_ADAPTERS = ("peekable", "enumerate", "iter", "into_iter", "by_ref", "iter_m
 ITER_DRAW = ("peek", "next", "peek_mut")
 
 
-_SCHEME = 3      # key scheme version; lowered only by the key-migration script (2 = before if-diverge / !! / bool::then guards, 1 = before each(..) and plain bool guards)
+_SCHEME = 4      # key scheme version; lowered only by the key-migration script (3 = before `match S {Some(v) => v, None => diverge}` as `(S)?`, 2 = before if-diverge / !! / bool::then guards, 1 = before each(..) and plain bool guards)
+
+
+_CRATE = None     # the crate whose sites are being keyed (set by sites()); lets iter_source see through single-expression wrappers
 
 
 def iter_source(e, seen_iter=False):
@@ -179,6 +182,15 @@ def iter_source(e, seen_iter=False):
             seen_iter = True
             e = e["recv"]
             continue
+        if _SCHEME >= 4 and _CRATE is not None and e["k"] in ("call", "mcall") and e.get("callee"):
+            w = _wrapper_body(_CRATE, e)
+            if w is not None:
+                params, body = w
+                args = ([e["recv"]] if e["k"] == "mcall" else []) + list(e["args"])
+                for p, a in zip(params, args):
+                    _LETS[p] = ("let", a)
+                e = body
+                continue
         if e["k"] == "call" and e.get("callee") and strip_generics(e["callee"]["path"]).endswith("IntoIterator::into_iter") and e["args"]:
             seen_iter = True
             e = e["args"][0]
@@ -197,6 +209,37 @@ def is_draw(e):
     while r["k"] in ("addr_of", "use", "cast"):
         r = r["e"]
     return r["k"] == "local" and _LETS.get(r.get("var"), ("",))[0] in ("let", "mut")
+
+
+def _wrapper_body(c, call):
+    """(param vars, body expression) if the callee is a function of this crate whose body is a single expression without
+    statements, control flow or closures, and whose parameters are plain bindings; else None."""
+    path = call["callee"]["path"]
+    if not path.startswith(c.name + "::"):
+        return None
+    fid = strip_generics(path) if c.body(strip_generics(path)) is not None else path
+    b = c.body(fid)
+    if b is None:
+        return None
+    it = c.item(fid)
+    if it is None or it.get("parent_kind") in ("Trait", "Impl { of_trait: true }"):
+        return None         # trait methods dispatch: only free functions and inherent methods are what their body says
+    body = b["value"]
+    while body["k"] == "block" and not body.get("stmts") and "tail" in body and not body.get("unsafe"):
+        body = body["tail"]
+    if body["k"] not in ("mcall", "call", "field", "binary", "unary", "index"):
+        return None
+    if any(n["k"] in ("if", "match", "loop", "closure", "ret", "block", "assign", "assign_op") for n in walk(body)):
+        return None
+    params = []
+    for p in b.get("params", []):
+        if p.get("k") != "bind":
+            return None
+        params.append(p["var"])
+    nargs = len(call.get("args") or []) + (1 if call["k"] == "mcall" else 0)
+    if len(params) != nargs:
+        return None
+    return params, body
 
 
 def short_descr(c, e, depth=0):
@@ -225,6 +268,23 @@ def short_descr(c, e, depth=0):
         return short_descr(c, e["e"], depth)
     if k == "unary":
         return e["op"] + short_descr(c, e["e"], depth + 1)
+    if k in ("mcall", "call") and _SCHEME >= 4 and e.get("callee") and depth < 6:
+        # a crate-local wrapper whose body is one expression (`fn peek_char(i: &I) -> Option<char> { i.chars().next() }`) is what it wraps
+        w = _wrapper_body(c, e)
+        if w is not None:
+            params, body = w
+            args = ([e["recv"]] if k == "mcall" else []) + list(e["args"])
+            saved = {p: _LETS.get(p) for p in params}
+            for p, a in zip(params, args):
+                _LETS[p] = ("let", a)
+            try:
+                return short_descr(c, body, depth + 1)
+            finally:
+                for p, v in saved.items():
+                    if v is None:
+                        _LETS.pop(p, None)
+                    else:
+                        _LETS[p] = v
     if k == "mcall":
         return "%s.%s(%s)" % (short_descr(c, e["recv"], depth + 1), e["name"], ",".join(short_descr(c, a, depth + 1) for a in e["args"]))
     if k == "call":
@@ -243,6 +303,9 @@ def short_descr(c, e, depth=0):
     if k == "block" and not e.get("stmts") and "tail" in e:
         return short_descr(c, e["tail"], depth)
     if k == "block" and "tail" in e:
+        if _SCHEME >= 4 and _peel_block(e["tail"])["k"] == "local":
+            # `{ let mut x = ..; ..; x }`: the statements only build the local, whose description already tells how
+            return short_descr(c, e["tail"], depth)
         return "{..; %s}" % short_descr(c, e["tail"], depth + 1)
     if k == "if" and _SCHEME >= 3 and "else" in e and diverges(e["else"]) and not diverges(e["then"]):
         return short_descr(c, e["then"], depth)
@@ -253,6 +316,16 @@ def short_descr(c, e, depth=0):
     if k in ("continue", "break", "ret"):
         return k
     if k == "match":
+        if _SCHEME >= 4 and e.get("src") == "normal":
+            # `match S { Some(v) => v, None => diverge }` is the let-else / `?` spelling of the same value: `(S)?`
+            live = [a for a in e["arms"] if not diverges(a["body"])]
+            if len(live) == 1 and len(e["arms"]) >= 2:
+                body = live[0]["body"]
+                while body["k"] in ("block",) and not body.get("stmts") and "tail" in body:
+                    body = body["tail"]
+                binds = list(pat_binds(live[0]["pat"]))
+                if body["k"] == "local" and len(binds) == 1 and binds[0]["var"] == body["var"]:
+                    return "(%s)?" % short_descr(c, e["scrut"], depth + 1)
         return "match(%s)" % short_descr(c, e["scrut"], depth + 1)
     if k == "assign":
         return "%s = %s" % (short_descr(c, e["l"], depth + 1), short_descr(c, e["r"], depth + 1))
@@ -295,6 +368,12 @@ def _cond_descr(c, cond):
     if cond["k"] == "lit" and "cfg" in c.macros(cond):
         return "cfg!(..)"
     return short_descr(c, cond)
+
+
+def _peel_block(e):
+    while e["k"] == "block" and not e.get("stmts") and "tail" in e:
+        e = e["tail"]
+    return e
 
 
 def diverges(e):
@@ -351,6 +430,25 @@ def walk_guarded(c, e, guards=()):
                     g = g + (_neg("!(" + _cond_descr(c, st["e"]["cond"]) + ")"),)
             elif st["k"] == "expr" and st["e"]["k"] == "if" and "else" in st["e"] and diverges(st["e"]["else"]) and not diverges(st["e"]["then"]):
                 g = g + (_cond_descr(c, st["e"]["cond"]),)
+            elif _SCHEME >= 4 and st["k"] == "let" and "els" not in st and "init" in st and _peel_block(st["init"])["k"] == "if" and \
+                    "else" in _peel_block(st["init"]) and diverges(_peel_block(st["init"])["else"]) and not diverges(_peel_block(st["init"])["then"]):
+                # `let v = if c { A } else { diverge };` — what follows runs only where c held (same as the let-else spelling)
+                ci = _peel_block(st["init"])["cond"]
+                if not (ci["k"] == "let_cond" and pat_descr(ci["pat"]) == "Some" and is_draw(ci["init"])):
+                    g = g + (_cond_descr(c, ci),)
+            elif _SCHEME >= 4 and st["k"] == "let" and "els" not in st and "init" in st and _peel_block(st["init"])["k"] == "match" and \
+                    _peel_block(st["init"]).get("src") == "normal" and len([a for a in _peel_block(st["init"])["arms"] if not diverges(a["body"])]) == 1 \
+                    and len(_peel_block(st["init"])["arms"]) >= 2:
+                m = _peel_block(st["init"])
+                live = [a for a in m["arms"] if not diverges(a["body"])][0]
+                pd = pat_descr(live["pat"])
+                if not (pd == "Some" and is_draw(m["scrut"])):
+                    sd = short_descr(c, m["scrut"])
+                    g = g + (sd if pd in ("True", "true") else ("!(" + sd + ")" if pd in ("False", "false") else "%s~%s" % (sd, pd)),)
+            elif _SCHEME >= 4 and st["k"] == "let" and "els" in st and "init" in st and diverges(st["els"]):
+                # `let PAT = e else { diverge };` guards what follows like `if let PAT = e { .. }`
+                if not (pat_descr(st["pat"]) == "Some" and is_draw(st["init"])):
+                    g = g + ("%s~%s" % (short_descr(c, st["init"]), pat_descr(st["pat"])),)
         if "tail" in e:   # same order as hir.children: tail first
             for x in walk_guarded(c, e["tail"], g):
                 yield x
@@ -409,9 +507,10 @@ def walk_guarded(c, e, guards=()):
 
 def sites(c, fid, body, kinds):
     """Yield dict(kind, what, descr, loc, node) for sites of the requested kinds inside a body."""
-    global _LETS, _MARK
+    global _LETS, _MARK, _CRATE
     _LETS = collect_lets(body["value"])
     _MARK = True
+    _CRATE = c
     try:
         for s in _sites(c, fid, body, kinds):
             yield s
